@@ -49,7 +49,10 @@ def main():
         cmd = ['/venv/bin/python', '-m', 'pytest', '-q', '-p', 'no:cacheprovider', '--timeout=900', 'tests']
         for d in DESELECT:
             cmd += ['--deselect', d]
-        rc2, out2 = sh(cmd, cwd=wt, env=env, timeout=3000)
+        # the admin tests bind a fixed port: give every run its own network namespace
+        import shlex
+        inner = 'ip link set lo up; ' + ' '.join(shlex.quote(c) for c in cmd)
+        rc2, out2 = sh(['unshare', '-rn', 'sh', '-c', inner], cwd=wt, env=env, timeout=3000)
         meta['suite_exit'] = rc2
         meta['suite_tail'] = out2.strip().split('\n')[-1][-200:]
         meta['confirmed'] = (rc0 == 0 and rc1 != 0 and rc2 == 0)
